@@ -37,6 +37,16 @@ func ExtGeneric[T any](s T) B       { return B{} }
 func OtherAToB(s A) B               { return B{} }
 func ExtWithCtx(s B, ctxTag string) A { return A{} }
 
+// goverter:context tag
+func ExtOwnCtx(s C, tag string) B { return B{} }
+
+// goverter:context tag
+// goverter:context more
+func extOwnCtx2(s C, tag string, more int) A { return A{} }
+
+// goverter:context nope
+func ExtOwnCtxWrongName(s C, tag string) B { return B{} }
+
 var ExtVarNotFunc = 3
 var extFuncVar = func(s A) B { return B{} }
 
@@ -44,7 +54,7 @@ type ExtTypeNotFunc struct{}
 `
 
 var extSelPatterns = []string{"ExtAToB", "extAToC", "ExtTwoSources", "extNoResult", "ExtVarNotFunc", "ExtGeneric", "Nope", "Ext.*", "ext.*", "(e|E)xt.*",
-	".*ToB", ".*To[A-Z]", "Ext|ExtAToB", "ExtAToB|Ext", "Nope.*", "Ext(Two|Three).*", "extFuncVar", ".*", "[eE]xt[A-C]To[A-C]", "ExtTypeNotFunc",
+	".*ToB", ".*To[A-Z]", "ExtOwnCtx", "ExtOwn.*", "(E|e)xtOwn.*", ".*Ctx2?", "ExtOwnCtxWrongName", "extOwnCtx2", "Ext|ExtAToB", "ExtAToB|Ext", "Nope.*", "Ext(Two|Three).*", "extFuncVar", ".*", "[eE]xt[A-C]To[A-C]", "ExtTypeNotFunc",
 	`.*\QToB`, `Ext\QAToB`, `.*\QToB\E`, `(?i)extatob`, `(Ext)(A)(To)(B)`, `Ext.{4}`}
 
 func runExtSel(e *env) error {
@@ -87,6 +97,7 @@ func runExtSel(e *env) error {
 		byKey[k] = oc
 	}
 	scope := pkg.Types.Scope()
+	own := ownContexts(extSelDecls)
 	var reqs, impl []*sx.Node
 	var descr []map[string]any
 	for _, c := range cases {
@@ -143,7 +154,7 @@ func runExtSel(e *env) error {
 					rn.Add(sx.H("r", sx.S(t.String()), sx.B(t.String() == "error")))
 				}
 			}
-			on.Add(sx.H("typeparams", sx.B(tp)), pn, rn)
+			on.Add(sx.H("typeparams", sx.B(tp)), pn, rn, sx.Strs("localctx", own[name]))
 			cands.Add(sx.H("c", sx.S(name), sx.B(full), on))
 		}
 		req := sx.H("extsel", sx.I(len(reqs)), sx.H("literal", sx.B(literal)), sx.H("lit", sx.S(c.pattern)),
@@ -173,8 +184,31 @@ func runExtSel(e *env) error {
 	return nil
 }
 
+// ownContexts: the `goverter:context ARG` lines of the doc comments of the package-level functions of a source text.
+func ownContexts(src string) map[string][]string {
+	out := map[string][]string{}
+	var pending []string
+	for _, line := range strings.Split(src, "\n") {
+		t := strings.TrimSpace(line)
+		switch {
+		case strings.HasPrefix(t, "// goverter:context "):
+			pending = append(pending, strings.TrimSpace(strings.TrimPrefix(t, "// goverter:context ")))
+		case strings.HasPrefix(t, "func "):
+			name := strings.TrimPrefix(t, "func ")
+			if i := strings.IndexAny(name, "(["); i > 0 {
+				out[name[:i]] = pending
+			}
+			pending = nil
+		case strings.HasPrefix(t, "//"):
+		default:
+			pending = nil
+		}
+	}
+	return out
+}
+
 // extCands describes the objects of a package scope for one extend name (what pkgload.GetMatching looks at).
-func extCands(scope *types.Scope, pattern string, unexportedAccessible bool, convType types.Type) (*sx.Node, bool) {
+func extCands(scope *types.Scope, pattern string, unexportedAccessible bool, convType types.Type, own map[string][]string) (*sx.Node, bool) {
 	rx := regexp.MustCompile(pattern)
 	_, literal := rx.LiteralPrefix()
 	cands := sx.H("cands")
@@ -200,7 +234,7 @@ func extCands(scope *types.Scope, pattern string, unexportedAccessible bool, con
 				rn.Add(sx.H("r", sx.S(t.String()), sx.B(t.String() == "error")))
 			}
 		}
-		on.Add(sx.H("typeparams", sx.B(tp)), pn, rn)
+		on.Add(sx.H("typeparams", sx.B(tp)), pn, rn, sx.Strs("localctx", own[name]))
 		cands.Add(sx.H("c", sx.S(name), sx.B(full), on))
 	}
 	return cands, literal
@@ -326,10 +360,12 @@ func runExtList(e *env) error {
 					pkg, pat, scope := mod+"/p", name, pp.Types.Scope()
 					// the output of a variables block is the declaring package p: its unexported objects are accessible
 					unexp := c.vars
+					own := ownContexts(extSelDecls)
 					if strings.HasPrefix(name, q) {
 						pkg, pat, scope, unexp = mod+"/q", strings.TrimPrefix(name, q), pq.Types.Scope(), false
+						own = ownContexts(extListQDecls)
 					}
-					cands, literal := extCands(scope, pat, unexp, convType)
+					cands, literal := extCands(scope, pat, unexp, convType, own)
 					req.Add(sx.H("entry", sx.H("pkg", sx.S(pkg)), sx.H("literal", sx.B(literal)), sx.H("lit", sx.S(pat)), cands))
 				}
 			}
